@@ -21,9 +21,10 @@
    Binding          [has, pos, prefix, sep, isep, vf, vfsem, vfref, sq]   (see NoB)
    Input            [name, ty, opt, val, b, ib]        ib = inputBinding of the array's item type
    Argument         [kind \in {"str","expr","rec"}, sem, ref, b]
-   EnvDef           [name, kind \in {"lit","ref"}, sem, ref]
+   EnvDef           [name, kind \in {"lit","ref","rt"}, sem, ref]   ("rt": $(runtime.outdir) / $(runtime.tmpdir))
    Tool             [shell, args, inputs, stdin, stdout, stderr, env]
-   Atom             [k, o, of, i, s]   k \in {"val","path","pre","sep","lit","fix"}                *)
+   Atom             [k, o, of, i, s]   k \in {"val","path","pre","sep","lit","fix","rt"}
+   Step             a tool + the values of its later jobs (section "Steps" below)                  *)
 EXTENDS Integers, Sequences, FiniteSets, TLC
 
 \* Input names in code-point order (upper case sorts before lower case): the rank is the order.
@@ -172,15 +173,26 @@ Argv(tool) == LET s == Sorted(tool) IN Flat([k \in 1..Len(s) |-> LeafArgv(s[k])]
 \* which binding every word of Argv comes from (for diagnosis only)
 Owners(tool) == LET s == Sorted(tool) IN Flat([k \in 1..Len(s) |-> [j \in 1..Len(LeafArgv(s[k])) |-> s[k].ow]])
 
+(* The designated directories of ONE job (CommandLineTool "Runtime environment"): every job has an output
+   directory and a temporary directory of its own.  ARt("outdir") / ARt("tmpdir") stand for the directories
+   of the job whose expectation is being evaluated: the process starts in its output directory,
+   HOME is that directory, TMPDIR is its temporary directory, and $(runtime.outdir) / $(runtime.tmpdir)
+   evaluate to the same two directories.                                                          *)
+RtDirs == {"outdir", "tmpdir"}
+ARt(which) == Atom("rt", "none", which, 0, "plain")
+RuntimeEnv == <<[name |-> "HOME", text |-> <<ARt("outdir")>>], [name |-> "TMPDIR", text |-> <<ARt("tmpdir")>>]>>
+
 (* EnvVarRequirement: the process sees exactly the evaluated envValue *)
 EnvOf(tool) == [k \in 1..Len(tool.env) |->
                   LET e == tool.env[k]
                   IN [name |-> e.name,
                       text |-> IF e.kind = "lit" THEN <<ALit(Own("env", e.name, k), e.sem)>>
+                               ELSE IF e.kind = "rt" THEN <<ARt(e.ref)>>
                                ELSE Tostr(InputByName(tool, e.ref).val, e.ref, 0)]]
 
 Expected(tool) == [argv |-> Argv(tool), owners |-> Owners(tool), env |-> EnvOf(tool),
-                   stdin |-> tool.stdin, stdout |-> tool.stdout, stderr |-> tool.stderr]
+                   stdin |-> tool.stdin, stdout |-> tool.stdout, stderr |-> tool.stderr,
+                   rtenv |-> RuntimeEnv, cwd |-> ARt("outdir")]
 
 -----------------------------------------------------------------------------
 (* Well-formedness: the domain on which the reference is defined and the model's atoms make sense *)
@@ -201,6 +213,9 @@ WellFormed(tool) ==
                 => \E f \in 1..Len(tool.inputs) : tool.inputs[f].name = tool.args[k].b.vfref
     /\ \A k \in 1..Len(tool.env) : tool.env[k].kind = "ref" =>
           \E f \in 1..Len(tool.inputs) : tool.inputs[f].name = tool.env[k].ref /\ tool.inputs[f].val.t = "str"
+    /\ \A k \in 1..Len(tool.env) : tool.env[k].kind = "rt" => tool.env[k].ref \in RtDirs
+    \* HOME and TMPDIR are the runtime's, not EnvVarRequirement's (the reference lets its own values win)
+    /\ \A k \in 1..Len(tool.env) : tool.env[k].name \notin {"HOME", "TMPDIR"}
     /\ tool.stdin # "" => \E f \in 1..Len(tool.inputs) : tool.inputs[f].name = tool.stdin /\ tool.inputs[f].val.t = "file"
     \* unquoted words only contain text whose lexing is specified
     /\ LET lv == Leaves(tool)
@@ -208,4 +223,43 @@ WellFormed(tool) ==
        IN /\ \A a \in unq : a.s \in ShellSems
           /\ (\E a \in unq : a.s = "envref")
                 => \E k \in 1..Len(tool.env) : tool.env[k].name = "SFV_REF" /\ tool.env[k].kind = "lit" /\ tool.env[k].sem = "refval"
+
+-----------------------------------------------------------------------------
+(* Steps: ONE tool description serves a SEQUENCE of jobs (the elements of a scatter, the iterations of a
+   loop, the retries of a failed job).  StreamFlow keeps one CWLCommand object per step and calls its
+   execute() once per job -- concurrently for a scatter -- so anything that object (or the processors it
+   owns) remembers from one call is state carried between jobs.  The specification has no such state:
+
+     what the process of job j receives is what the reference gives that job when it runs ALONE.
+
+   A step is (t, more): t is the tool with the input values of job 1, more[j - 1][k] is the value of the
+   k-th declared input in job j.  Everything else (bindings, arguments, requirements, redirections) is the
+   description shared by all jobs.  No term of ExpectedJob refers to another job of the step nor to the
+   order in which the jobs execute: the order is free (scatter jobs run concurrently) and irrelevant.
+   The runtime atoms (ARt) of ExpectedJob(t, more, j) denote the directories of job j; those of different
+   jobs are different directories (DirsOfJobsDistinct is stated on the observations by the harness).     *)
+WithVals(t, vals) == [t EXCEPT !.inputs = [k \in 1..Len(t.inputs) |-> [t.inputs[k] EXCEPT !.val = vals[k]]]]
+NJobs(more) == 1 + Len(more)
+JobTool(t, more, j) == IF j = 1 THEN t ELSE WithVals(t, more[j - 1])
+ExpectedJob(t, more, j) == Expected(JobTool(t, more, j))
+ExpectedStep(t, more) == [j \in 1..NJobs(more) |-> ExpectedJob(t, more, j)]
+
+\* the value is one the declared type admits (all jobs of a step share the declaration)
+ItemType(ty) == CASE ty = "string[]" -> "string" [] ty = "int[]" -> "int" [] ty = "File[]" -> "File" [] OTHER -> "none"
+RECURSIVE ValueFits(_, _, _)
+ValueFits(ty, opt, v) ==
+    CASE v.t = "null" -> opt
+      [] v.t = "arr" -> ty \in {"string[]", "int[]", "File[]"}
+                        /\ \A j \in 1..Len(v.v) : ValueFits(ItemType(ty), FALSE, v.v[j])
+      [] v.t = "str" -> ty = "string"
+      [] v.t = "int" -> ty = "int"
+      [] v.t = "bool" -> ty = "boolean"
+      [] v.t = "file" -> ty = "File"
+      [] OTHER -> FALSE
+StepWellFormed(t, more) ==
+    /\ \A j \in 1..Len(more) : Len(more[j]) = Len(t.inputs)
+    /\ \A j \in 1..NJobs(more) :
+          LET tj == JobTool(t, more, j)
+          IN /\ WellFormed(tj)
+             /\ \A k \in 1..Len(tj.inputs) : ValueFits(tj.inputs[k].ty, tj.inputs[k].opt, tj.inputs[k].val)
 =============================================================================
